@@ -56,6 +56,18 @@ theorem form_roundtrip (m : Values) :
 example : (parseForm (encode [([98], [[1], [2]]), ([97, 38], [[61]]), ([], [[]])])).1
     = [([], []), ([97, 38], [61]), ([98], [1]), ([98], [2])] := by decide
 
+/-- **form_merge** — client-level form data merged into the request's
+(`SetFormDataFromValues(c.FormData)`): under every key the server finds the request's values
+followed by the client's, nothing lost, nothing duplicated. -/
+theorem form_merge (req client : Values) (hreq : (req.map (·.1)).Nodup) (k : Bytes) :
+    valuesOf (mergeForm req client) k = valuesOf req k ++ valuesOf client k ∧
+    valuesOfPairs (parseForm (encode (mergeForm req client))).1 k = valuesOf req k ++ valuesOf client k := by
+  have h := (valuesOf_addAll req client k hreq).2
+  exact ⟨h, by rw [(form_roundtrip _).2 k]; exact h⟩
+
+example : valuesOf (mergeForm [([97], [[1]]), ([98], [[2]])] [([98], [[3], [4]]), ([99], [[5]])]) [98]
+    = [[2], [3], [4]] := by decide
+
 /-! ## Part 2: quoting of Content-Disposition parameters -/
 
 section Quoting
@@ -199,6 +211,71 @@ example : FieldOK [66] ([107], [118, 13, 10, 45, 45]) :=
 
 example : FileOK [66] ⟨[102], [97, 9, 34, 92, 200], [([120, 45, 97], [1, 2])], [116, 47, 120], [13, 10, 45, 45, 65, 0]⟩ :=
   ⟨by decide, by decide, by unfold GoodParams; decide, by unfold CTypeOK; decide, by unfold BoundaryFree; decide⟩
+
+set_option maxRecDepth 100000 in
+theorem boundaryChar_facts : ∀ c : UInt8, boundaryChar c = true →
+    ((c == 34) = false ∧ (c == 92) = false ∧ (c == 13) = false ∧ (c == 10) = false) ∧
+    ((isTSpecial c || c == 32) = false → isTokenChar c = true) := by
+  apply Req.Form.byte_forall
+  decide
+
+/-- **content_type_matches_body** (the boundary) — for every boundary `Writer.SetBoundary`
+accepts, the Content-Type header written by `FormDataContentType` (quoted when the boundary
+contains tspecials or spaces) is parsed by the server (`mime.ParseMediaType`) as
+`multipart/form-data` with exactly that boundary — the one the body was written with. -/
+theorem content_type_boundary (b : Bytes) (hv : validBoundary b = true) :
+    parseMediaType (formDataContentType b) = .ok (multipartFormData, [(boundaryKey, b)]) := by
+  simp only [validBoundary, Bool.and_eq_true, List.all_eq_true, decide_eq_true_eq] at hv
+  obtain ⟨⟨⟨hlen, -⟩, hchars⟩, -⟩ := hv
+  have hne : b ≠ [] := by intro e; subst e; simp at hlen
+  have hconst : Req.Ascii.lower (((multipartFormData.reverse.dropWhile isBlank).reverse).dropWhile isBlank) = multipartFormData ∧
+      validType multipartFormData = true ∧ (∀ x ∈ multipartFormData, (fun c : UInt8 => c != 59) x = true) ∧
+      boundaryKey ≠ [] ∧ (∀ x ∈ boundaryKey, isTokenChar x = true) ∧ Req.Ascii.lower boundaryKey = boundaryKey ∧
+      boundaryKey.contains 42 = false := by decide
+  obtain ⟨c1, c2, c3, c4, c5, c6, c7⟩ := hconst
+  unfold formDataContentType
+  split
+  next hq =>
+    -- quoted boundary
+    have hshape : multipartFormData ++ [59, 32] ++ boundaryKey ++ [61] ++ ([34] ++ b ++ [34])
+        = multipartFormData ++ ([59, 32] ++ boundaryKey ++ [61, 34] ++ b ++ [34] ++ []) := by simp
+    rw [hshape]
+    apply parseMediaType_typed _ _ _ c1 c2 c3
+    · right; exact ⟨[32] ++ boundaryKey ++ [61, 34] ++ b ++ [34] ++ [], by simp⟩
+    · have hcq : consumeQuoted (b ++ 34 :: []) = some (b, []) :=
+        cq_plain b [] (fun c hc => (boundaryChar_facts c (hchars c hc)).1)
+      rw [parseParams_step _ boundaryKey b b [] c4 c5 hcq]
+      have : ∃ n, (multipartFormData ++ ([59, 32] ++ boundaryKey ++ [61, 34] ++ b ++ [34] ++ [])).length = n + 1 :=
+        ⟨_, by simp [multipartFormData]; rfl⟩
+      obtain ⟨n, hn⟩ := this
+      rw [hn, parseParams_nil]
+      simp [c6]
+    · simp; decide
+    · simp [dupConflict]
+  next hq =>
+    -- token boundary
+    have hq' : ∀ c ∈ b, (isTSpecial c || c == 32) = false := by
+      intro c hc
+      rw [Bool.eq_false_iff]
+      intro h
+      exact hq (List.any_eq_true.mpr ⟨c, hc, h⟩)
+    have htok : ∀ c ∈ b, isTokenChar c = true :=
+      fun c hc => (boundaryChar_facts c (hchars c hc)).2 (hq' c hc)
+    have hshape : multipartFormData ++ [59, 32] ++ boundaryKey ++ [61] ++ b
+        = multipartFormData ++ ([59, 32] ++ boundaryKey ++ [61] ++ b) := by simp
+    rw [hshape]
+    apply parseMediaType_typed _ _ _ c1 c2 c3
+    · right; exact ⟨[32] ++ boundaryKey ++ [61] ++ b, by simp⟩
+    · have : ∃ n, (multipartFormData ++ ([59, 32] ++ boundaryKey ++ [61] ++ b)).length + 1 = n + 2 :=
+        ⟨_, by simp [multipartFormData]; rfl⟩
+      obtain ⟨n, hn⟩ := this
+      rw [hn, parseParams_step_token n boundaryKey b c4 c5 hne htok, c6]
+    · simp; decide
+    · simp [dupConflict]
+
+example : (parseMediaType (formDataContentType [97, 32, 98])).toOption = some (multipartFormData, [(boundaryKey, [97, 32, 98])])
+    ∧ validBoundary [97, 32, 98] = true := by
+  decide
 
 end Multipart
 
